@@ -115,9 +115,17 @@ func checkC19(e *Env, r *Report) {
 	}
 	nAbs := 0
 	// every abstraction, in whatever sub-directory: the files of <name>.d directories are drop-ins, not abstractions
-	absRoot := filepath.Join(e.Src, "apparmor.d", "abstractions")
-	for _, rel := range listFiles(absRoot) {
-		{
+	// (the abstractions a distribution overlay installs over the build - dists/<name>/abstractions - are abstractions too)
+	absRoots := []string{filepath.Join(e.Src, "apparmor.d", "abstractions")}
+	if ds, err := os.ReadDir(filepath.Join(e.Src, "dists")); err == nil {
+		for _, d := range ds {
+			if p := filepath.Join(e.Src, "dists", d.Name(), "abstractions"); d.IsDir() && dirExists(p) {
+				absRoots = append(absRoots, p)
+			}
+		}
+	}
+	for _, absRoot := range absRoots {
+		for _, rel := range listFiles(absRoot) {
 			dropin := false
 			for _, seg := range strings.Split(filepath.Dir(rel), "/") {
 				if strings.HasSuffix(seg, ".d") {
@@ -134,7 +142,11 @@ func checkC19(e *Env, r *Report) {
 					incs = append(incs, it.IncPath)
 				}
 			}
-			recs = append(recs, map[string]any{"ev": "abstraction", "file": "abstractions/" + rel, "rel": rel, "incs": incs})
+			where := "abstractions/"
+			if r2, err := filepath.Rel(e.Src, absRoot); err == nil && strings.HasPrefix(r2, "dists/") {
+				where = r2 + "/"
+			}
+			recs = append(recs, map[string]any{"ev": "abstraction", "file": where + rel, "rel": rel, "incs": incs})
 			nAbs++
 		}
 	}
@@ -438,4 +450,9 @@ func addSiblingProbes(src string) int {
 		}
 	}
 	return n
+}
+
+func dirExists(p string) bool {
+	st, err := os.Stat(p)
+	return err == nil && st.IsDir()
 }
